@@ -513,46 +513,8 @@ func realLit(v float64) string {
 
 // decimal literal from spec text, exact.
 func (c *Ctx) floatLitText(txt string) string {
-	if c.mode == ModeXReal {
-		v, _ := strconv.ParseFloat(txt, 64)
-		r, ok := new(big.Rat).SetString(txt)
-		if ok {
-			neg := r.Sign() < 0
-			if neg {
-				r.Neg(r)
-			}
-			var s string
-			if r.IsInt() {
-				s = r.Num().String() + ".0"
-			} else {
-				s = fmt.Sprintf("(/ %s.0 %s.0)", r.Num().String(), r.Denom().String())
-			}
-			if neg {
-				s = "(- " + s + ")"
-			}
-			return "(xfin " + s + ")"
-		}
-		return c.floatLit(v)
-	}
-	if c.mode == ModeReal {
-		r, ok := new(big.Rat).SetString(txt)
-		if ok {
-			neg := r.Sign() < 0
-			if neg {
-				r.Neg(r)
-			}
-			var s string
-			if r.IsInt() {
-				s = r.Num().String() + ".0"
-			} else {
-				s = fmt.Sprintf("(/ %s.0 %s.0)", r.Num().String(), r.Denom().String())
-			}
-			if neg {
-				s = "(- " + s + ")"
-			}
-			return s
-		}
-	}
+	// Literals denote IEEE doubles (as in Go and JavaScript source): the decimal text is
+	// rounded to float64 first and that double's exact value is used.
 	v, _ := strconv.ParseFloat(txt, 64)
 	return c.floatLit(v)
 }
